@@ -30,6 +30,9 @@ def check(prog, run):
     run.rule("R4", "byte counter: stored only inside the helper, value = counter (+) len(buf) of the buffer passed to write_all; all helper call sites pass (sink field, counter field) of the same object")
     run.rule("R6", "duration statistic: the end time of a track whose presentation times are not monotone in queue order is the maximum over every queued sample")
     run.rule("R5", "statistics provenance: video_frames<-len(video queue), audio_frames<-len(audio queue), bytes_written<-counter, duration<-pure function of both queues; built only on the Ok edge of finalize")
+    run.rule("R7", "the statistics count accepted frames only: a refused write leaves no trace in the queues, durations and last-delta fields they are computed from (C05.R1 instances)")
+    from . import c05
+    c05.purity_rule(prog, run, "R7")
     try:
         cx = common.Ctx(prog)
     except AnchorMissing as e:
@@ -378,6 +381,20 @@ def r5(cx, run):
                     pure = False
                 reads |= field_reads(u.bodies[f])
         good = pure and vq in reads and aq in reads
+
+        def outside(x):
+            if isinstance(x, tuple) and x and x[0] == "call" and len(x) > 3 and x[3] in callees:
+                return []
+            if isinstance(x, tuple) and len(x) > 1 and x[0] in ("load", "refplace") and str(x[1]).startswith("arg"):
+                return [x[1]]
+            out = []
+            if isinstance(x, (tuple, list)):
+                for y in x:
+                    out += outside(y)
+            return out
+        other = sorted(set(outside(e)))
+        run.check(not other, "R5", key + " duration_secs only-from-samples", "no other state or parameter enters the duration",
+                  "duration_secs also depends on %s, which is not derived from the accepted samples' presentation times and durations" % other, mir.loc_of(st))
         run.check(good, "R5", key + " duration_secs", "duration := %s ; reads %s" % (sym.show(e), sorted(reads & {vq, aq})),
                   "duration_secs does not derive from a pure function of both sample queues (callees %s, reads %s, pure=%s)" % (sorted(callees), sorted(reads), pure), mir.loc_of(st))
         # each track's end time pairs the queue with its *own* last-delta field (the field the queue's writer updates
